@@ -410,6 +410,10 @@ def charstr_values(spec, tier, pairs):
         if not f.kind.charstr:
             continue
         strs = [bytes([a]) for a in range(256)]
+        # valid UTF-8 sequences of every length whose characters are printable / not
+        # printable / above U+FFFF (exercise the txt_is_utf8 style beyond single octets)
+        strs += [b"\xc3\xa9", b"\xc2\x85", b"\xc2\xa0", b"\xc2\xad", b"\xe2\x80\x8b", b"\xe2\x80\xa8",
+                 b"\xef\xbb\xbf", b"\xee\x80\x80", b"\xf0\x9f\x98\x80", b"a\xc2\x85b", b"\xc2\x85\\\""]
         if pairs:
             strs += [bytes([a, b]) for a in ALPHA20 for b in ALPHA20]
             strs += [bytes([a, b, c]) for a in (0x5C, 0x22, 0x80) for b in ALPHA20 for c in (0x30, 0x5C, 0x22, 0xFF)]
